@@ -14,9 +14,10 @@ use qverif::Rng;
 pub struct ListGen<'a> {
     pub r: &'a mut Rng,
     counter: u32,
-    /// steer around the two open findings of this family (notes/C02-fixes/10 and 12) — only in functions
-    /// whose recursive value is a FIELD of the parameter: (10) no pattern that constrains the tail after a
-    /// branch that narrowed the field; (12) no branch after the field is used up. Delete when they land.
+    /// steer around the two findings of this family (notes/C02-fixes/10 and 12, landed as 28d0afc / cfcf2ea —
+    /// OFF; kept for trying reverts) — only in functions whose recursive value is a FIELD of the parameter:
+    /// (10) no pattern that constrains the tail after a branch that narrowed the field; (12) no branch after
+    /// the field is used up.
     pub steer: bool,
 }
 
@@ -49,7 +50,7 @@ pub struct Fun {
 
 impl<'a> ListGen<'a> {
     pub fn new(r: &'a mut Rng) -> Self {
-        ListGen { r, counter: 0, steer: true }
+        ListGen { r, counter: 0, steer: false }
     }
 
     fn k(&mut self) -> i64 {
